@@ -43,10 +43,15 @@ PIN_STMTS = {
         "if self.type == SignatureType.CanonicalDocument:\n    _data += re.subn(br'\\r?\\n', b'\\r\\n', subject)[0]",
     ],
     'PGPKey.sign': [
-        "if isinstance(subject, PGPMessage):\n    if subject.type == 'cleartext':\n        sig_type = SignatureType.CanonicalDocument\n    subject = subject.message",
+        "if isinstance(subject, PGPMessage):\n    if subject.type == 'cleartext':\n        sig_type = SignatureType.CanonicalDocument\n    subject = subject._signed_data",
     ],
     'PGPKey.verify': [
-        "if isinstance(subject, PGPMessage):\n    for sig in _filter_sigs(subject.signatures):\n        sspairs.append((sig, subject.message))",
+        "if isinstance(subject, PGPMessage):\n    for sig in _filter_sigs(subject.signatures):\n        sspairs.append((sig, subject._signed_data))",
+    ],
+    # what a signature on a message covers: the text itself for a cleartext message (fix 9dba8e2 made literals hash their octets)
+    'PGPMessage._signed_data': [
+        "if self.type == 'literal':\n    return bytes(self._message._contents)",
+        "return self.message",
     ],
 }
 
@@ -81,6 +86,7 @@ def check_pins(ctx, pgpy):
     sign = pgpy.PGPKey.sign
     pin_statements(ctx, 'PGPKey.sign', getattr(sign, '__wrapped__', sign), PIN_STMTS['PGPKey.sign'])
     pin_statements(ctx, 'PGPKey.verify', pgpy.PGPKey.verify, PIN_STMTS['PGPKey.verify'])
+    pin_statements(ctx, 'PGPMessage._signed_data', getattr(getattr(M, '_signed_data', None), 'fget', None), PIN_STMTS['PGPMessage._signed_data'])
 
 
 # ------------------------------------------------------------------------------------------------------------------
